@@ -401,7 +401,8 @@ theorem lose_invQ (P : Params) (Q : Chunk → Bytes → Prop) :
         · exact (truncEntry_specQ P Q h s hs c k).1
     exact ih { s with cache := s.cache.lose l } h1 hT'
 
-/-! ### the shared fetch is exact when cache reads are all-or-nothing -/
+/-! ### the shared fetch before commit c4f4279 (no writer restart) is exact when cache reads are
+all-or-nothing -/
 
 /-- A round with honest replies in which the cache loses entries only as a whole. -/
 def Round.OK (B : Bytes) : Round → Prop
@@ -436,24 +437,24 @@ theorem sharedExact_finish (P : Params) (B : Bytes) (pd : Pending)
   cases h
   exact ⟨rfl, h2, h3⟩
 
-theorem fetchRangeShared_exact (P : Params) (B : Bytes) (hc : 0 < P.chunk)
+theorem fetchRangeSharedOld_exact (P : Params) (B : Bytes) (hc : 0 < P.chunk)
     (hB : B.length = P.size) :
     ∀ (script : List Round) (pd : Pending) (s : St),
       PendOK P B pd.o pd.n pd.cs pd.hits pd.missing → WsOK B pd.o pd.n pd.missing pd.ws →
       Inv P B s → (∀ r ∈ script, r.OK B) →
-      Inv P B (fetchRangeShared P pd s script).1 ∧ CovSub s (fetchRangeShared P pd s script).1 ∧
-      SharedExact P B pd.o pd.n (fetchRangeShared P pd s script).2 := by
+      Inv P B (fetchRangeSharedOld P pd s script).1 ∧ CovSub s (fetchRangeSharedOld P pd s script).1 ∧
+      SharedExact P B pd.o pd.n (fetchRangeSharedOld P pd s script).2 := by
   intro script
   induction script with
   | nil =>
     intro pd s _ _ hs _
-    exact ⟨hs, CovSub.refl s, by intro k buf h; simp [fetchRangeShared] at h⟩
+    exact ⟨hs, CovSub.refl s, by intro k buf h; simp [fetchRangeSharedOld] at h⟩
   | cons round rest ih =>
     intro pd s hp hws hs hr
     have hround := hr round (List.mem_cons_self ..)
     cases round with
     | lead reply =>
-      simp only [fetchRangeShared]
+      simp only [fetchRangeSharedOld]
       obtain ⟨h1, h2, h3⟩ := fetchMissing_spec P B _ (goodQ_exact P B) hc s pd.missing reply
         ((inv_iff P B s).mp hs) hround
       generalize fetchMissing P s pd.missing reply = R at h1 h2 h3
@@ -471,7 +472,7 @@ theorem fetchRangeShared_exact (P : Params) (B : Bytes) (hc : 0 < P.chunk)
         exact a3 cd hcd
     | follow lr loss order =>
       obtain ⟨hlr, hloss⟩ := hround
-      simp only [fetchRangeShared]
+      simp only [fetchRangeSharedOld]
       split
       · exact ⟨hs, CovSub.refl s, by intro k buf h; simp at h⟩
       · rename_i hperm
@@ -522,6 +523,15 @@ theorem readAtShared_unfold (P : Params) (s : St) (o n : Nat) (script : List Rou
   rw [if_neg h, walk_readAt P hc]
   rfl
 
+theorem readAtSharedOld_unfold (P : Params) (s : St) (o n : Nat) (script : List Round)
+    (hc : 0 < P.chunk) (h : ¬ (n = 0 ∨ o > P.size)) :
+    readAtSharedOld P s o n script =
+      let pd := prepared s o n (chunksFrom P (o + n - 1) (P.size + 1) (floorU o P.chunk))
+      if pd.missing.isEmpty then (s, finish P pd) else fetchRangeSharedOld P pd s script := by
+  unfold readAtSharedOld
+  rw [if_neg h, walk_readAt P hc]
+  rfl
+
 theorem wsOK_prepared (B : Bytes) (s : St) (o n : Nat) (cs : List Chunk) :
     WsOK B o n (prepared s o n cs).missing (prepared s o n cs).ws := by
   refine ⟨?_, ?_⟩
@@ -551,14 +561,14 @@ theorem pendOK_prepared (P : Params) (B : Bytes) (Q : Chunk → Bytes → Prop) 
   · intro c hcm
     exact (place_bounds P hc o n hn ho c (hcl2 c hcm)).2.2
 
-/-- `ReadAt` on the shared path: with all-or-nothing cache reads (strong invariant, whole-entry
+/-- `ReadAt` on the shared path before commit c4f4279: with all-or-nothing cache reads (strong invariant, whole-entry
 losses only) every successful result is exact, whatever the rounds. -/
-theorem readAtShared_exact (P : Params) (B : Bytes) (hc : 0 < P.chunk) (hB : B.length = P.size)
+theorem readAtSharedOld_exact (P : Params) (B : Bytes) (hc : 0 < P.chunk) (hB : B.length = P.size)
     (s : St) (hs : Inv P B s) (o n : Nat) (script : List Round) (hr : ∀ r ∈ script, r.OK B) :
-    Inv P B (readAtShared P s o n script).1 ∧ CovSub s (readAtShared P s o n script).1 ∧
-    SharedExact P B o n (readAtShared P s o n script).2 := by
+    Inv P B (readAtSharedOld P s o n script).1 ∧ CovSub s (readAtSharedOld P s o n script).1 ∧
+    SharedExact P B o n (readAtSharedOld P s o n script).2 := by
   by_cases h : n = 0 ∨ o > P.size
-  · unfold readAtShared
+  · unfold readAtSharedOld
     rw [if_pos h]
     refine ⟨hs, CovSub.refl s, ?_⟩
     intro k buf hk
@@ -566,7 +576,7 @@ theorem readAtShared_exact (P : Params) (B : Bytes) (hc : 0 < P.chunk) (hB : B.l
     have : min n (P.size - o) = 0 := by omega
     rw [this]
     exact ⟨rfl, by simp, by simp [slice]⟩
-  · rw [readAtShared_unfold P s o n script hc h]
+  · rw [readAtSharedOld_unfold P s o n script hc h]
     have hp := pendOK_prepared P B _ (goodQ_exact P B) hc hB s ((inv_iff P B s).mp hs) o n
       (by omega) (by omega)
     have hws := wsOK_prepared B s o n (chunksFrom P (o + n - 1) (P.size + 1) (floorU o P.chunk))
@@ -579,7 +589,7 @@ theorem readAtShared_exact (P : Params) (B : Bytes) (hc : 0 < P.chunk) (hB : B.l
       rw [List.isEmpty_iff] at hemp
       rw [hemp] at hcm
       simp at hcm
-    · exact fetchRangeShared_exact P B hc hB script _ s hp hws hs hr
+    · exact fetchRangeSharedOld_exact P B hc hB script _ s hp hws hs hr
 
 /-! ### progress of the retry loop -/
 
@@ -593,7 +603,7 @@ theorem fetchRangeShared_lead (P : Params) (pd : Pending) (s : St) (reply : Repl
   rcases fetchMissing P s pd.missing reply with ⟨s', _ | got⟩ <;> simp [finish]
 
 /-- What one follower round does: bad script, shared error, successful copy (done), or failed copy
-and retry with the SAME writers (as they are after the failed copy) on the next round. -/
+and retry on the next round with the writers restarted (`current = 0`). -/
 theorem fetchRangeShared_follow (P : Params) (pd : Pending) (s : St) (lr : Reply)
     (loss : List Loss) (order : List Chunk) (rest : List Round) :
     let r := fetchRangeShared P pd s (.follow lr loss order :: rest)
@@ -605,7 +615,7 @@ theorem fetchRangeShared_follow (P : Params) (pd : Pending) (s : St) (lr : Reply
     (order.isPerm pd.missing = true ∧ L.2.isSome ∧ C.2 = true ∧
       r = (s'', finish P { pd with ws := C.1 })) ∨
     (order.isPerm pd.missing = true ∧ L.2.isSome ∧ C.2 = false ∧
-      r = fetchRangeShared P { pd with ws := C.1 } s'' rest) := by
+      r = fetchRangeShared P { pd with ws := resetWs C.1 } s'' rest) := by
   simp only [fetchRangeShared]
   cases hperm : order.isPerm pd.missing with
   | false => simp
@@ -975,7 +985,7 @@ theorem fetchRangeShared_state (P : Params) (B : Bytes) (Q : Chunk → Bytes →
             rw [← h.1, adjust_eq]
           | false =>
             simp only
-            obtain ⟨i1, i2, i3⟩ := ih { pd with ws := ws' }
+            obtain ⟨i1, i2, i3⟩ := ih { pd with ws := resetWs ws' }
               { s1 with cache := loss.foldl Cache.lose s1.cache } h1'
               (fun r h => hr r (List.mem_cons_of_mem _ h))
             exact ⟨i1, CovSub.trans hsub i2, i3⟩
@@ -1524,30 +1534,8 @@ theorem readAtShared_outOfFuel (P : Params) (hc : 0 < P.chunk) (s : St) (o n : N
     · simp [finish] at h
     · exact fetchRangeShared_outOfFuel P script _ s h
 
-/-! ### a repaired retry: fresh stream position for every attempt
-
-`fetchRangeSharedFixed` is NOT a model of the Go code: it is `fetchRangeShared` with the one change
-that a retry starts with `bytesWriter.current = 0` again.  With that change the shared path is
-exact even when the cache returns truncated entries. -/
-
-def resetWs (ws : Writers) : Writers := ws.map fun kv => (kv.1, { kv.2 with current := 0 })
-
-def fetchRangeSharedFixed (P : Params) (pd : Pending) : St → List Round → St × SharedOut
-  | s, [] => (s, .outOfFuel)
-  | s, .lead reply :: _ =>
-    match fetchMissing P s pd.missing reply with
-    | (s', none) => (s', .err)
-    | (s', some got) => (s', finish P { pd with ws := applyGot pd.ws got })
-  | s, .follow leaderReply loss order :: rest =>
-    if ¬ order.isPerm pd.missing then (s, .badScript)
-    else
-      match fetchMissing P s pd.missing leaderReply with
-      | (s', none) => (s', .err)
-      | (s', some _) =>
-        let s'' : St := { s' with cache := loss.foldl Cache.lose s'.cache }
-        match copyInOrder s''.cache pd.ws order with
-        | (ws', true) => (s'', finish P { pd with ws := ws' })
-        | (ws', false) => fetchRangeSharedFixed P { pd with ws := resetWs ws' } s'' rest
+/-! ### the shared fetch (with the writer restart of commit c4f4279) is exact for every cache that
+never holds wrong bytes, truncated entries included -/
 
 /-- The writer has the right window (whatever it has received). -/
 def WShape (o n : Nat) (cw : Chunk × BW) : Prop :=
@@ -1664,25 +1652,25 @@ theorem copyInOrder_prefix (P : Params) (B : Bytes) (hc : 0 < P.chunk) (hB : B.l
         · exact i2 c' (doneKey_set_self hd)
         · exact i3 c' hc'
 
-theorem fetchRangeSharedFixed_exact (P : Params) (B : Bytes) (hc : 0 < P.chunk)
+theorem fetchRangeShared_exact (P : Params) (B : Bytes) (hc : 0 < P.chunk)
     (hB : B.length = P.size) :
     ∀ (script : List Round) (pd : Pending) (s : St),
       PendOK P B pd.o pd.n pd.cs pd.hits pd.missing → WsOK B pd.o pd.n pd.missing pd.ws →
       InvQ P (QPrefix P B) s → (∀ r ∈ script, r.Honest B) →
-      InvQ P (QPrefix P B) (fetchRangeSharedFixed P pd s script).1 ∧
-      CovSub s (fetchRangeSharedFixed P pd s script).1 ∧
-      SharedExact P B pd.o pd.n (fetchRangeSharedFixed P pd s script).2 := by
+      InvQ P (QPrefix P B) (fetchRangeShared P pd s script).1 ∧
+      CovSub s (fetchRangeShared P pd s script).1 ∧
+      SharedExact P B pd.o pd.n (fetchRangeShared P pd s script).2 := by
   intro script
   induction script with
   | nil =>
     intro pd s _ _ hs _
-    exact ⟨hs, CovSub.refl s, by intro k buf h; simp [fetchRangeSharedFixed] at h⟩
+    exact ⟨hs, CovSub.refl s, by intro k buf h; simp [fetchRangeShared] at h⟩
   | cons round rest ih =>
     intro pd s hp hws hs hr
     have hround := hr round (List.mem_cons_self ..)
     cases round with
     | lead reply =>
-      simp only [fetchRangeSharedFixed]
+      simp only [fetchRangeShared]
       obtain ⟨h1, h2, h3⟩ := fetchMissing_spec P B _ (goodQ_prefix P B) hc s pd.missing reply
         hs hround
       generalize fetchMissing P s pd.missing reply = R at h1 h2 h3
@@ -1699,7 +1687,7 @@ theorem fetchRangeSharedFixed_exact (P : Params) (B : Bytes) (hc : 0 < P.chunk)
         obtain ⟨cd, hcd, rfl⟩ := hall c hcm
         exact a3 cd hcd
     | follow lr loss order =>
-      simp only [fetchRangeSharedFixed]
+      simp only [fetchRangeShared]
       split
       · exact ⟨hs, CovSub.refl s, by intro k buf h; simp at h⟩
       · rename_i hperm
@@ -1735,29 +1723,24 @@ theorem fetchRangeSharedFixed_exact (P : Params) (B : Bytes) (hc : 0 < P.chunk)
               (fun r h => hr r (List.mem_cons_of_mem _ h))
             exact ⟨i1, CovSub.trans hsub i2, i3⟩
 
-/-- `readAtShared` with the repaired retry. -/
-def readAtSharedFixed (P : Params) (s : St) (o n : Nat) (script : List Round) : St × SharedOut :=
-  if n = 0 ∨ o > P.size then (s, .ok 0 (List.replicate n 0))
-  else
-    let pd := prepared s o n (rangeChunks P o n)
-    if pd.missing.isEmpty then (s, finish P pd) else fetchRangeSharedFixed P pd s script
-
-theorem readAtSharedFixed_exact (P : Params) (B : Bytes) (hc : 0 < P.chunk) (hB : B.length = P.size)
+/-- `ReadAt` on the shared path (current code): every successful result is exact, for any rounds,
+any map order and any cache loss, truncation included. -/
+theorem readAtShared_exact (P : Params) (B : Bytes) (hc : 0 < P.chunk) (hB : B.length = P.size)
     (s : St) (hs : InvQ P (QPrefix P B) s) (o n : Nat) (script : List Round)
     (hr : ∀ r ∈ script, r.Honest B) :
-    InvQ P (QPrefix P B) (readAtSharedFixed P s o n script).1 ∧
-    CovSub s (readAtSharedFixed P s o n script).1 ∧
-    SharedExact P B o n (readAtSharedFixed P s o n script).2 := by
-  unfold readAtSharedFixed rangeChunks
+    InvQ P (QPrefix P B) (readAtShared P s o n script).1 ∧
+    CovSub s (readAtShared P s o n script).1 ∧
+    SharedExact P B o n (readAtShared P s o n script).2 := by
   by_cases h : n = 0 ∨ o > P.size
-  · rw [if_pos h]
+  · unfold readAtShared
+    rw [if_pos h]
     refine ⟨hs, CovSub.refl s, ?_⟩
     intro k buf hk
     cases hk
     have : min n (P.size - o) = 0 := by omega
     rw [this]
     exact ⟨rfl, by simp, by simp [slice]⟩
-  · rw [if_neg h]
+  · rw [readAtShared_unfold P s o n script hc h]
     have hp := pendOK_prepared P B _ (goodQ_prefix P B) hc hB s hs o n (by omega) (by omega)
     have hws := wsOK_prepared B s o n (chunksFrom P (o + n - 1) (P.size + 1) (floorU o P.chunk))
     simp only at hp ⊢
@@ -1769,15 +1752,14 @@ theorem readAtSharedFixed_exact (P : Params) (B : Bytes) (hc : 0 < P.chunk) (hB 
       rw [List.isEmpty_iff] at hemp
       rw [hemp] at hcm
       simp at hcm
-    · exact fetchRangeSharedFixed_exact P B hc hB script _ s hp hws hs hr
+    · exact fetchRangeShared_exact P B hc hB script _ s hp hws hs hr
 
-/-- While no copy fails the repaired retry and the model of the code are the same function. -/
-theorem fetchRangeSharedFixed_lead (P : Params) (pd : Pending) (s : St) (reply : Reply)
+/-- Until a copy fails the code before and after commit c4f4279 is the same function. -/
+theorem fetchRangeShared_lead_eq_old (P : Params) (pd : Pending) (s : St) (reply : Reply)
     (rest : List Round) :
-    fetchRangeSharedFixed P pd s (.lead reply :: rest) =
-      fetchRangeShared P pd s (.lead reply :: rest) := by
-  simp only [fetchRangeSharedFixed, fetchRangeShared]
-  rcases fetchMissing P s pd.missing reply with ⟨s', _ | got⟩ <;> rfl
+    fetchRangeShared P pd s (.lead reply :: rest) =
+      fetchRangeSharedOld P pd s (.lead reply :: rest) := by
+  simp only [fetchRangeShared, fetchRangeSharedOld]
 
 /-! ### `CacheCovered` holds along every history -/
 
